@@ -2,7 +2,7 @@
 # run every check (quick tier); usage: tools/run_all.sh [--rebaseline]
 cd /verif
 for p in C01 C02 C03 C04 C05 C06 C07 C08 C09 C10 C11 C12 C13 C14 C15 C16 C17 C18 C19; do
-  ./check $p --tier quick "$@" > out/last_$p.log 2>&1; rc=$?
+  timeout 2400 ./check $p --tier quick "$@" > out/last_$p.log 2>&1; rc=$?
   echo "$p rc=$rc $(grep -a '^property' out/last_$p.log | cut -c1-150)"
   grep -a "VIOLATION\|UNDECIDED\|ERROR" out/last_$p.log | head -3 | cut -c1-220
 done
